@@ -18,7 +18,9 @@ PROGS = {1: [1, 240, 160, 225, 0, 0, 160, 225, 0, 0, 160, 225],
          2: [0, 32, 147, 229, 4, 48, 131, 226, 0, 32, 147, 229],
          3: [0, 0, 0, 239, 0, 0, 160, 225, 0, 0, 160, 225],
          4: [178, 32, 211, 225, 1, 16, 129, 226, 4, 240, 31, 229],
-         5: [3, 32, 131, 229, 0, 0, 160, 225, 0, 0, 160, 225]}      # runs with SCTLR.M = 1 (see MC_Multi.tla)
+         5: [3, 32, 131, 229, 0, 0, 160, 225, 0, 0, 160, 225],      # runs with SCTLR.M = 1 (see MC_Multi.tla)
+         # determinism-only program (not in MC_Multi): flag-setting immediates whose carry-out is the incoming C flag
+         6: [1, 0, 176, 227, 240, 16, 145, 227, 3, 32, 18, 226]}    # MOVS r0,#1 ; ORRS r1,r1,#0xF0 ; ANDS r2,r2,#3
 
 
 def init_state(base, c, p):
@@ -127,6 +129,15 @@ def run(ctx):
             for _ in range(2):
                 M.run_action(b.arm, {'n': 'Step'})            # leaves opcode / executed_opcode / changed_registers behind
             M.inject(b.arm, init_state(b.base, c, p))
+            # a third instance has executed THE SAME program before, from a state with the opposite flags (anything an
+            # instruction word remembers from its first execution must not matter the second time)
+            b2 = Inst(c, p)
+            flipped = init_state(b2.base, c, p)
+            flipped['cpsr'] = [flipped['cpsr'][0] ^ 0xF000, flipped['cpsr'][1]]
+            M.inject(b2.arm, flipped)
+            for _ in range(3):
+                M.run_action(b2.arm, {'n': 'Step'})
+            M.inject(b2.arm, init_state(b2.base, c, p))
             key = (c, p)
             gd = detg.setdefault(key, GD('det-c%d-p%d' % key, a.cfg, a.base))
             for k in range(3):
@@ -137,7 +148,8 @@ def run(ctx):
                 sn.arm, sn.c, sn.p = snap, c, p
                 es = sn.step(gd)
                 eb = b.step(gd)
-                for other, tag in ((es, 'snapshot'), (eb, 'other-history')):
+                eb2 = b2.step(gd)
+                for other, tag in ((es, 'snapshot'), (eb, 'other-history'), (eb2, 'same-program-other-flags')):
                     eid = len(gd.events) + 1
                     gd.events.append({'id': eid, 'pre': {}, 'act': {'n': 'SameDelta'}, 'out': ea['out'], 'out2': other['out'],
                                       'cls': ea['cls'], 'nunp': 0, 'd': ea['d'], 'd2': other['d'], 'full': True})
